@@ -339,8 +339,16 @@ def parse_guard(test):
         raise AnalysisError(f"unrecognised problem guard `{src}`")
     # membership
     if isinstance(test, ast.Compare) and len(test.ops) == 1 and isinstance(test.ops[0], ast.NotIn) and len(fs) == 1:
-        if isinstance(test.comparators[0], (ast.List, ast.Tuple, ast.Set)) and _field_of(test.left) == fs[0]:
-            vals = [ast.literal_eval(x) for x in test.comparators[0].elts]
+        coll = test.comparators[0]
+        # list(<dict>) / tuple(<dict>) / <dict>.keys() / a dict itself: membership in its keys
+        if isinstance(coll, ast.Call) and isinstance(coll.func, ast.Name) and coll.func.id in ("list", "tuple", "set", "frozenset", "sorted") and len(coll.args) == 1:
+            coll = coll.args[0]
+        if isinstance(coll, ast.Call) and isinstance(coll.func, ast.Attribute) and coll.func.attr == "keys" and not coll.args:
+            coll = coll.func.value
+        if isinstance(coll, ast.Dict) and all(k is not None for k in coll.keys):
+            coll = ast.Tuple(elts=list(coll.keys), ctx=ast.Load())
+        if isinstance(coll, (ast.List, ast.Tuple, ast.Set)) and _field_of(test.left) == fs[0]:
+            vals = [ast.literal_eval(x) for x in coll.elts]
             return [(fs[0], ("set", frozenset(vals)))]
     # len(self.F) != K  /  len(self.F) != self.G - K
     if isinstance(test, ast.Compare) and len(test.ops) == 1 and isinstance(test.ops[0], ast.NotEq):
